@@ -103,6 +103,9 @@ extern "C" void h_mtp()
     for (int i = first; i < MTPN; i++) { if ((int64_t)tm[i] < got) less++; if ((int64_t)tm[i] <= got) leq++; if ((int64_t)tm[i] == got) member = true; }
     VASSERT(member, "median time past is the time of one of the last 11 blocks");
     VASSERT(less <= n / 2 && leq >= n / 2 + 1, "median time past is the element of rank n/2 among the times of the block and its (up to) 10 ancestors");
-    VWITNESS(got == (int64_t)tm[MTPN - 1] && MTPN > 1 && tm[0] != tm[MTPN - 1], "the newest block can be the median");
+#if MTPN > 1
+    VWITNESS(got == (int64_t)tm[MTPN - 1] && tm[0] != tm[MTPN - 1], "the newest block can be the median");
+    VWITNESS(got != (int64_t)tm[MTPN - 1], "the newest block need not be the median");
+#endif
     VREACH("end");
 }
